@@ -299,6 +299,46 @@ class DensityData:
                     raw_file_list.append(a_file_object)
         return sorted(raw_file_list)
 
+    @staticmethod
+    def _pair_by_chromosome(h5_files, list_of_gene_data, logger):
+        """Pair each TE Density output file with the GeneData of its chromosome.
+
+        The chromosome is the one stored in the file (CHROMOSOME_ID), the
+        position of a file in a sorted listing says nothing about it
+        (e.g. 'X_Chr1.h5' < 'X_Chr10.h5' but 'X_Chr10_GeneData.tsv' <
+        'X_Chr1_GeneData.tsv').
+
+        Args:
+            h5_files (list of str): paths to the TE Density output files
+            list_of_gene_data (list of GeneData): one per chromosome
+            logger (logging.logger): Obj to log information to
+
+        Returns: list of tuple(str, GeneData)
+        Raises: ValueError if a file has no, or more than one, matching GeneData
+        """
+        gene_data_by_chromosome = {}
+        for gene_data in list_of_gene_data:
+            chromosome = str(gene_data.chromosome_unique_id)
+            if chromosome in gene_data_by_chromosome:
+                logger.critical("More than one GeneData for chromosome %s" % chromosome)
+                raise ValueError
+            gene_data_by_chromosome[chromosome] = gene_data
+        pairs = []
+        for h5_file in h5_files:
+            with h5py.File(h5_file, "r") as open_file:
+                ids = set(
+                    chromosome.decode("utf-8")
+                    for chromosome in open_file["CHROMOSOME_ID"][:]
+                )
+            if len(ids) != 1 or list(ids)[0] not in gene_data_by_chromosome:
+                logger.critical(
+                    "The chromosome(s) %s of %s do not correspond to one of the GeneData chromosomes: %s"
+                    % (sorted(ids), h5_file, sorted(gene_data_by_chromosome))
+                )
+                raise ValueError
+            pairs.append((h5_file, gene_data_by_chromosome[list(ids)[0]]))
+        return pairs
+
     # TODO, ask Michael if this should be moved. I don't think so?
     @classmethod
     def from_list_genedata_dir_and_hdf5_dir(
@@ -354,8 +394,8 @@ class DensityData:
         # Initialize DensityData for each pseudomolecule
         processed_dd_data = [
             cls.verify_h5_cache(raw_hdf5_data_file, gene_data_obj, logger)
-            for raw_hdf5_data_file, gene_data_obj, in zip(
-                all_unprocessed_h5_files, list_of_gene_data
+            for raw_hdf5_data_file, gene_data_obj, in cls._pair_by_chromosome(
+                all_unprocessed_h5_files, list_of_gene_data, logger
             )
         ]
         return processed_dd_data
@@ -503,8 +543,8 @@ class DensityData:
         # Initialize DensityData for each pseudomolecule
         processed_dd_data = [
             cls(raw_hdf5_data_file, gene_data_obj, logger)
-            for raw_hdf5_data_file, gene_data_obj, in zip(
-                all_unprocessed_h5_files, list_of_gene_data
+            for raw_hdf5_data_file, gene_data_obj, in cls._pair_by_chromosome(
+                all_unprocessed_h5_files, list_of_gene_data, logger
             )
         ]
         return processed_dd_data
